@@ -319,9 +319,9 @@ func init() {
 		Assume: []string{"model.Encode parameterised by one instance's options and registrations"},
 		Plan: func(tier string) []core.Lane {
 			if tier == "thorough" {
-				return []core.Lane{{Lane: "plain", Cases: 60000, Shards: 16, TimeoutS: 3600}, {Lane: "race", Cases: 6000, Shards: 16, TimeoutS: 3600}}
+				return []core.Lane{{Lane: "plain", Cases: 900000, Shards: 16, TimeoutS: 7200}, {Lane: "race", Cases: 60000, Shards: 16, TimeoutS: 3600}}
 			}
-			return []core.Lane{{Lane: "plain", Cases: 3200, Shards: 16, TimeoutS: 1200}, {Lane: "race", Cases: 320, Shards: 16, TimeoutS: 1200}}
+			return []core.Lane{{Lane: "plain", Cases: 8000, Shards: 16, TimeoutS: 1200}, {Lane: "race", Cases: 640, Shards: 16, TimeoutS: 1200}}
 		},
 		Case:   c17Case,
 		Finish: c17Finish,
